@@ -91,6 +91,7 @@ RecvFn(h0, f) ==
            THEN R([h EXCEPT !.rx = (h.rx + 1) % 8], <<W(Ack((h.rx + 1) % 8)), UpData(f.pl)>>)
            ELSE R(h, <<W(AckOrNak(h.rx))>>)      \* latitude of C04: either answer, with the expected number
                                                  \* (the code: ACK for a retransmission, NAK otherwise)
+      [] f.type = "GARBAGE" -> R(h0, <<W(Nak(h0.rx))>>)     \* CRC / escape error: NAK, no ack processing
       [] f.type = "ACK" -> R(h, <<>>)
       [] f.type = "NAK" ->
            R(IF h.cur.id # 0 /\ h.cur.wake = "none" THEN [h EXCEPT !.cur.wake = "naked"] ELSE h, <<>>)
